@@ -19,6 +19,9 @@ ASSUME TLCSet(43, JsonDeserialize("atoms.json"))
 Letters == {"a","b","c","d","e","f","g","h","i","j","k","l","m","n","o","p","q","r","s","t","u","v","w","x","y","z",
             "A","B","C","D","E","F","G","H","I","J","K","L","M","N","O","P","Q","R","S","T","U","V","W","X","Y","Z","_"}
 Digits == {"0","1","2","3","4","5","6","7","8","9"}
+\* FLOAT is written with \d, which in the grammar's regex dialect is every Unicode decimal digit; INTEGER and the
+\* identifier classes are written with [0-9]
+FDigits == Digits \cup {"ARDIGIT", "FWDIGIT"}
 WordCh == Letters \cup Digits
 SignCh == {";", ",", "{", "}", "(", ")", "[", "]", "<", ">", "=", ".", "-"}
 \* Unicode White_Space among the atoms
@@ -69,8 +72,8 @@ ClassifyWord(w) == IF w \in DOMAIN Literals THEN Literals[w]
 \* FLOAT = [+-]?(\d*\.)?\d+[f]?  at i: index after the match, or i if it does not match
 FloatEnd(at, i) ==
   LET s == IF At(at, i) \in {"+", "-"} THEN i + 1 ELSE i
-      d1 == RunEnd(at, s, Digits)                            \* \d*
-      withDot == IF At(at, d1) = "." /\ At(at, d1 + 1) \in Digits THEN RunEnd(at, d1 + 1, Digits) ELSE 0
+      d1 == RunEnd(at, s, FDigits)                           \* \d*
+      withDot == IF At(at, d1) = "." /\ At(at, d1 + 1) \in FDigits THEN RunEnd(at, d1 + 1, FDigits) ELSE 0
       plain == IF d1 > s THEN d1 ELSE 0
       body == IF withDot # 0 THEN withDot ELSE plain
   IN IF body = 0 THEN i ELSE IF At(at, body) = "f" THEN body + 1 ELSE body
@@ -91,7 +94,7 @@ Munch(at, i) ==
          IF At(at, i + 1) \in Letters THEN [k |-> "ANNOTATION", e |-> RunEnd(at, i + 1, WordCh)] ELSE [k |-> "", e |-> i]
   ELSE IF c \in Letters THEN
          LET e == RunEnd(at, i, WordCh) IN [k |-> ClassifyWord(Concat(at, i, e - 1)), e |-> e]
-  ELSE IF c \in Digits \cup {"+", "-", "."} THEN
+  ELSE IF c \in FDigits \cup {"+", "-", "."} THEN
          LET fe == FloatEnd(at, i)
              ie == IF c \in Digits THEN RunEnd(at, i, Digits) ELSE i
          IN IF fe > i /\ fe > ie THEN [k |-> "FLOAT", e |-> fe]            \* strictly longer than INTEGER
